@@ -31,6 +31,9 @@ var ParseMJML = parser.ParseMJML
 // RenderOpts is an alias for convenience
 type RenderOpts = options.RenderOpts
 
+// malformedDocumentOutput is what MJML reports for a document that lacks a body section
+const malformedDocumentOutput = "MJML badly formatted"
+
 // RenderOption is a functional option for configuring MJML rendering
 type RenderOption func(*RenderOpts)
 
@@ -422,7 +425,7 @@ func RenderWithAST(mjmlContent string, opts ...RenderOption) (*RenderResult, err
 		// MJML CLI reports "MJML badly formatted" in this scenario, so mirror that sentinel output
 		// to keep test fixtures consistent while avoiding rendering partially constructed markup.
 		return &RenderResult{
-			HTML: "MJML badly formatted",
+			HTML: malformedDocumentOutput,
 			AST:  ast,
 		}, nil
 	}
@@ -1223,6 +1226,13 @@ func (c *MJMLComponent) GetTagName() string {
 // Render implements optimized Writer-based rendering for MJMLComponent
 func (c *MJMLComponent) Render(w io.StringWriter) error {
 	debug.DebugLog("mjml-root", "render-start", "Starting root MJML component rendering")
+
+	// A document without mj-body gives the same sentinel on every path (RenderWithAST returns it
+	// before rendering; RenderFromAST and NewFromAST + RenderComponentString get it here).
+	if c.Body == nil {
+		_, err := w.WriteString(malformedDocumentOutput)
+		return err
+	}
 
 	// First, prepare the body to establish sibling relationships without full rendering
 	debug.DebugLog("mjml-root", "prepare-siblings", "Preparing body sibling relationships")
